@@ -1,0 +1,16 @@
+//go:build verif
+// +build verif
+
+package cache
+
+import "os"
+
+// VerifStep, when set, is called at the steps of the cache write protocol
+// (verification builds only).
+var VerifStep func(f *os.File, step string)
+
+func verifStep(f *os.File, step string) {
+	if VerifStep != nil {
+		VerifStep(f, step)
+	}
+}
